@@ -191,6 +191,8 @@ class Gen:
                 items.append(("c", r.choice(self.alpha)))
             elif k < 0.8:
                 a, b = sorted([r.choice(self.alpha), r.choice(self.alpha)])
+                if r.random() < 0.15:
+                    a, b = r.choice([("0", "_"), ("!", "Z"), (":", "z"), ("^", "~"), ("×", "÷"), (" ", "@"), ("[", "`"), ("0", "z")])
                 items.append(("r", a, b))
             elif self.escapes:
                 items.append(("e", r.choice(self.CLASS_ESCAPES)))
